@@ -15,13 +15,13 @@ import (
 func init() {
 	register(&PropDef{
 		ID: "C07", Level: "exploration", Quick: 48000, Thorough: 800000, QuickCap: 110,
-		Rule:   "each run = one store, 2-4 client tasks x 1-4 HTTP requests on 1-2 object names: conditional and unconditional uploads (media, multipart, resumable), patches conditioned on metageneration, deletes, compose and copy (same bucket and across buckets) into the contended name (static sources), metadata and media reads; the seeded scheduler interleaves them at every store access (Store seam), every internal step of the per-object lock map and the file store's write steps; 0-1 request contexts are cancelled at a scheduled instant; the history (global event stamps) is checked per object with porcupine against the object model with generations as opaque fresh tokens, plus the single-winner invariant for N writers conditioned on one generation; distinct = trace + response hash; non-trivial = at least one preemption",
+		Rule:   "each run = one store, 2-4 client tasks x 1-4 HTTP requests on 1-2 object names: conditional and unconditional uploads (media, multipart, resumable), patches conditioned on metageneration, deletes, compose and copy (same bucket and across buckets) into the contended name (static sources), metadata and media reads; the seeded scheduler interleaves them at every store access (Store seam), every internal step of the per-object lock map and the file store's write steps; 0-1 request contexts are cancelled, at a scheduled instant or inside one of the ctx.Err() calls the code makes; the history (global event stamps) is checked per object with porcupine against the object model with generations as opaque fresh tokens, plus the single-winner invariant for N writers conditioned on one generation; distinct = trace + response hash; non-trivial = at least one preemption",
 		Real:   []string{"gcsemu handlers through the real mux, gcsutil.TransientLockMap, memstore (btree under its mutexes), filestore (content, mtime, sidecar as separate system calls)"},
 		Stub:   []string{"HTTP connections (recorder)", "Go channel blocking in the lock map (wait-until)", "wall clock (strictly increasing, so generations are distinct; the stalled clock belongs to C10)"},
 		Assume: []string{"a resumable upload is one operation whose window spans all its requests", "listings are not part of this workload", "porcupine Unknown is counted, never reported"},
 		Run:    runC07,
 	})
-	expectedProbes["C07"] = []string{"c07.same_generation_writers", "c07.patch_race", "c07.delete_vs_upload", "c07.reader_among_writers", "c07.lock_waited", "c07.cancel_fired", "c07.porcupine_ok", "c07.compose_vs_upload", "c07.cross_bucket_copy", "c07.append_by_compose"}
+	expectedProbes["C07"] = []string{"c07.same_generation_writers", "c07.patch_race", "c07.delete_vs_upload", "c07.reader_among_writers", "c07.lock_waited", "c07.cancel_fired", "c07.porcupine_ok", "c07.compose_vs_upload", "c07.cross_bucket_copy", "c07.append_by_compose", "c07.cancel_inside_err_call"}
 }
 
 type c07In struct {
@@ -407,9 +407,25 @@ func runC07(r *Run) {
 	var cancelCtx context.Context
 	var cancel context.CancelFunc
 	cancelClient, cancelIdx := -1, 0
+	cancelAtErr := false
 	if withCancel {
 		cancelCtx, cancel = context.WithCancel(context.Background())
 		defer cancel()
+		if cfg.Intn(2) == 1 {
+			// the cancellation becomes visible inside one of the ctx.Err() calls the handler
+			// and the lock map make (a window without a scheduling point), not at a task switch
+			cancelAtErr = true
+			fs := r.T.S("fault")
+			inner, c := cancelCtx, cancel
+			cancelCtx = &simCtx{Context: inner, cancel: c, atErr: func() bool {
+				if fs.Intn(5) != 4 {
+					return false
+				}
+				r.Fault("ctx_cancel_at_err")
+				r.Probe("c07.cancel_inside_err_call")
+				return true
+			}}
+		}
 		cancelClient = cfg.Intn(nClients)
 		if len(plans[cancelClient]) > 0 {
 			cancelIdx = cfg.Intn(len(plans[cancelClient]))
@@ -454,7 +470,7 @@ func runC07(r *Run) {
 			}
 		})
 	}
-	if withCancel {
+	if withCancel && !cancelAtErr {
 		s.Go("cancel", func() {
 			r.Fault("ctx_cancel")
 			r.Probe("c07.cancel_fired")
